@@ -44,7 +44,31 @@ def _judge(a, out):
     return lines or [("c06gate -", "0")]
 
 
-LIFE = C.Kind("bridge-life", impl=_impl, model=lambda a: f"blife {a['ports']} " + " ".join(a["acts"]), judge=_judge,
+def _known(a, out):
+    """F9 (open): port 0 configured and a start while running - the second start binds a second system-chosen socket"""
+    if not any(x.startswith("zero:") for x in a["acts"]) or not C.finding_open("F9"):
+        return None
+    running = False
+    for act, o in zip(a["acts"], out.split(" ")):
+        if act in ("start", "enter") and running:
+            return "F9"
+        parts = o.split(":")
+        running = len(parts) > 1 and parts[1] == "1"
+    return None
+
+
+def known_witness(entry):
+    if entry["id"] != "F9":
+        return None
+    hits = []
+    for w in entry["witnesses"]:
+        out = _impl(w)
+        if any(j[1] != "0" for j in _judge(w, out)):
+            hits.append(w)
+    return hits or None
+
+
+LIFE = C.Kind("bridge-life", impl=_impl, model=lambda a: f"blife {a['ports']} " + " ".join(a["acts"]), judge=_judge, known=_known,
               classify=lambda a, o: f"ports{a['ports']}:len{len(a['acts']) // 5 * 5}:{'fail' if 'raise' in o else 'nofail'}",
               nontrivial=lambda a, o: (a["ports"], tuple(a["acts"])),
               shrink=lambda a: [dict(a, acts=a["acts"][:i] + a["acts"][i + 1:]) for i in range(len(a["acts"]))])
@@ -78,6 +102,26 @@ def gen_bad(rng):
     return {"ports": n, "acts": acts}
 
 
+def gen_zero(rng):
+    """one configured port is 0 (the system chooses a free one at every start): it is listened on while running and gone after stop
+    like any other - looked for among the UDP sockets of the process, since its number is not known beforehand"""
+    n = rng.randrange(1, 4)
+    z = rng.randrange(n)
+    acts = [f"zero:{z}"]
+    for _ in range(rng.randrange(2, 12)):
+        k = rng.random()
+        i = rng.randrange(n)
+        acts.append("start" if k < 0.3 else "stop" if k < 0.5 else f"send:{i}" if k < 0.8 else (f"occ:{i}" if i != z else "stop") if k < 0.86
+                    else "enter" if k < 0.93 else "leave")
+    return {"ports": n, "acts": acts}
+
+
+def gen_form(rng):
+    """the ports handed over as a tuple, a set, a frozenset or a dict's keys instead of a list"""
+    a = gen(rng) if rng.random() < 0.5 else gen_bad(rng)
+    return dict(a, acts=["as:" + rng.choice(["tuple", "set", "frozenset", "keys"])] + a["acts"])
+
+
 FIXED = [{"ports": 3, "acts": ["occ:2", "start", "send:0", "send:1", "rel:2", "start", "send:0", "send:2", "stop", "send:0", "start", "start", "send:1", "stop", "stop"]},
          {"ports": 1, "acts": ["stop", "stop", "start", "send:0", "stop", "send:0", "start", "send:0"]},
          {"ports": 2, "acts": ["enter", "send:1", "leave", "send:1", "enter", "enter", "send:0", "leave"]},
@@ -97,6 +141,12 @@ def streams(ctx):
         ["start", "ostop", "send:0", "ostart", "send:0", "stop", "send:0"],
         ["ostop", "start", "send:0", "ostop", "send:0", "ostart", "ostop", "send:0", "stop", "ostart", "start", "send:0"])]
     ctx.run_cases(LIFE, "a-second-bridge-object-on-the-same-ports", twin, exhaustive=True)
+    ctx.run_cases(LIFE, "a-configured-port-0-chosen-by-the-system", [{"ports": 1, "acts": ["zero:0", "start", "send:0", "stop", "send:0", "start", "stop"]},
+                                                                     {"ports": 2, "acts": ["zero:1", "occ:0", "start", "rel:0", "start", "send:1", "stop"]}]
+                  + [gen_zero(rng) for _ in range(ctx.n(20, 300))], exhaustive=False, sample_every=9)
+    ctx.run_cases(LIFE, "ports-handed-over-in-another-container", [{"ports": 3, "acts": ["as:set", "bad:2", "start", "send:0", "stop"]},
+                                                                   {"ports": 3, "acts": ["as:tuple", "occ:1", "start", "send:0", "rel:1", "start", "send:2", "stop"]}]
+                  + [gen_form(rng) for _ in range(ctx.n(20, 300))], exhaustive=False, sample_every=9)
     ctx.run_cases(LIFE, "random-action-sequences", [gen(rng) for _ in range(ctx.n(110, 2500))], exhaustive=False, sample_every=50)
 
 
